@@ -4,6 +4,7 @@
 package main
 
 import (
+	"context"
 	"errors"
 	"fmt"
 	"time"
@@ -12,6 +13,7 @@ import (
 	"github.com/go-netty/go-netty/zz_verif/explore"
 	"github.com/go-netty/go-netty/zz_verif/hlib"
 	"github.com/go-netty/go-netty/zz_verif/mock"
+	"github.com/go-netty/go-netty/zz_verif/vcontext"
 	"github.com/go-netty/go-netty/zz_verif/vsched"
 )
 
@@ -57,9 +59,16 @@ func scenarioStall(cfg hlib.ChanCfg, lay layout, closer string, bound int, stall
 		Init:  func() any { return &obs{} },
 		Body: func(v any) {
 			o := v.(*obs)
-			if closer == "handler" {
+			var cancelParent func()
+			switch closer {
+			case "handler":
 				o.env = hlib.NewEnv(cfg, nil, &closeOnRead{})
-			} else {
+			case "user-after-parent-cancel":
+				// the channel's parent context (e.g. the bootstrap's) is cancelled first, as Shutdown does
+				var parent context.Context
+				parent, cancelParent = vcontext.WithCancel(context.Background())
+				o.env = hlib.NewEnv(cfg, parent)
+			default:
 				o.env = hlib.NewEnv(cfg, nil)
 			}
 			if stall > 0 {
@@ -94,6 +103,9 @@ func scenarioStall(cfg hlib.ChanCfg, lay layout, closer string, bound int, stall
 			if closer == "handler" {
 				o.env.T.Feed([]byte("x"))
 			} else {
+				if cancelParent != nil {
+					cancelParent()
+				}
 				o.env.Ch.Close(errBye)
 			}
 		},
@@ -179,8 +191,15 @@ func build(tier string) []*explore.Scenario {
 	for _, until := range []bool{true, false} {
 		for _, q := range qs {
 			for _, lay := range lays {
-				for _, closer := range []string{"user", "handler"} {
+				closers := []string{"user", "handler"}
+				if len(lay.ws) == 1 && q <= 2 {
+					closers = append(closers, "user-after-parent-cancel")
+				}
+				for _, closer := range closers {
 					s := scenario(hlib.ChanCfg{Q: q, Until: until}, lay, closer, bound)
+					if closer == "user-after-parent-cancel" {
+						s.Bound = bound - 1
+					}
 					s.Cache = true
 					scs = append(scs, s)
 				}
